@@ -101,8 +101,9 @@ def run(ctx):
       "both select implementations: select.select and pox.lib.epoll_select.EpollSelect (use_epoll)",
       "scheduler stepped by the harness (cycle(), SelectHub._select, idle()); select() replaced by a polling "
       "shim that advances the virtual clock; threaded hub mode is stepped, not run on a real thread (C07 covers threads)",
-      "sub-unit task priorities (randomised by design) and CallBlocking are not modelled; Recv/Send are driven with "
-      "scripted sockets (full / 1-byte / would-block writes)",
+      "task priorities below 1: the scheduler's random draws are an input scripted by the spec (k consecutive "
+      "heads sent to the back of the deque, then one resumed; 2-3 low-priority tasks, sub-functions inherit); "
+      "CallBlocking is not modelled; Recv/Send are driven with scripted sockets (full / 1-byte / would-block writes)",
       "Timer objects (Timers.tla): delays 0..3 virtual seconds, <=1 timer exhaustively (2 in thorough, 3 in simulation)"]
   pi = dict(threaded=False, nlocks=1)
   pt = dict(threaded=True, nlocks=1)
@@ -113,9 +114,12 @@ def run(ctx):
   mcs = [("MCQ_Q1i.cfg", ENV_Q), ("MCQ_Q1t.cfg", ENVT), ("MC_Ti.cfg", TIM),
          ("MCQ_S2i.cfg", ["Setup", "Cycle", "HubSelect"]), ("MCQ_N2i.cfg", ["Setup", "Cycle", "HubSelect"]), ("MCQ_IO1i.cfg", ["Setup", "Cycle", "HubSelect", "QFdSet"]),
          ("MCQ_RW2i.cfg", ["Setup", "Cycle", "HubSelect", "QFdSet"]),
+         # tasks with priority < 1 (Scheduler.cycle's head selection: k tasks sent to the back, then one resumed)
+         ("MCQ_P3qi.cfg", ["Setup", "Cycle", "HubSelect", "QWakeST", "QWakeDirect"]),
          ("LIVE_i.cfg", None), ("LIVE_t.cfg", None)]
   if not quick:
-    mcs += [("MC_Tt.cfg", TIM + ["Idle"]), ("MC_Q1i.cfg", FULL), ("MC_Q1t.cfg", FULL + ["Idle"])]
+    mcs += [("MCQ_P2i.cfg", ["Setup", "Cycle", "HubSelect"]), ("MCQ_P3i.cfg", ["Setup", "Cycle", "HubSelect"]),
+            ("MC_Tt.cfg", TIM + ["Idle"]), ("MC_Q1i.cfg", FULL), ("MC_Q1t.cfg", FULL + ["Idle"])]
   # (cfg, adapter params, cap in quick)
   exs = [("EX_Q1i.cfg", pi, 2500), ("EX_Q1t.cfg", pt, 2000), ("EX_S2i.cfg", pi, 3000),
          ("EX_IO1i.cfg", pi, 2000), ("EX_IO2si.cfg", pi, 1500),
@@ -125,9 +129,12 @@ def run(ctx):
          # the same hub with use_epoll=True: pox.lib.epoll_select.EpollSelect must behave like select()
          ("EX_IO1i.cfg", dict(pi, epoll=True), 1500),
          # read and write interest in the same socket (two tasks / one after the other), both select implementations
-         ("EX_RW2i.cfg", pi, 1500), ("EX_RW2i.cfg", dict(pi, epoll=True), 1500), ("EX_RW2t.cfg", dict(pt, epoll=True), 1000)]
+         ("EX_RW2i.cfg", pi, 1500), ("EX_RW2i.cfg", dict(pi, epoll=True), 1500), ("EX_RW2t.cfg", dict(pt, epoll=True), 1000),
+         # priorities below 1: 2 tasks (both low) and 3 tasks (all low); the random draws are scripted by the spec
+         ("EX_P2qi.cfg", pi, 1500), ("EX_P3qi.cfg", pi, 1500)]
   if not quick:
-    exs += [("EX_N2t.cfg", pt, 2000), ("EX_S2t.cfg", pt, 2000), ("EX_IO2st.cfg", pt, 1500), ("EX_Q1t.cfg", dict(pt, epoll=True), 1500)]
+    exs += [("EX_P2i.cfg", pi, 60000), ("EX_P2ai.cfg", pi, 60000), ("EX_P3i.cfg", pi, 60000), ("EX_P3ai.cfg", pi, 60000),
+            ("EX_N2t.cfg", pt, 2000), ("EX_S2t.cfg", pt, 2000), ("EX_IO2st.cfg", pt, 1500), ("EX_Q1t.cfg", dict(pt, epoll=True), 1500)]
   # (two tasks x all 2-op programs is ~3k set-ups and millions of transitions: covered by simulation instead)
   n = 100 if quick else 2500
   sims = [("SIM_A2i.cfg", n, 14, pi, 0), ("SIM_A2t.cfg", n, 14, pt, 0), ("SIM_B3i.cfg", n, 14, pi, 0),
@@ -159,6 +166,10 @@ def run(ctx):
   for c, prm, cap in exs:
     b = export_edges(ctx, c, prm, cap=cap if quick else (cap if cap > 50000 else None), res=res[k])
     k += 1
+    if "_P" in c:       # vacuity guard of the priority dimension: the head must really have been passed over
+      ks = set(s["args"].get("k", 0) for x in b for s in x if s["a"] == "Cycle")
+      if not {1, 2} <= ks:
+        raise core.Machinery("%s: no behaviour sends a low-priority task to the back (k = %s)" % (c, sorted(ks)))
     if first:
       first = False
       okb = [b[i] for i in core.replay.last_ok if any(s["a"] == "Cycle" and s["exp"]["ran"] for s in b[i])]
